@@ -14,7 +14,8 @@ FN_FOR = {
     'C13': ['fn/visibility', 'front/attr/fn'],
     'C14': ['fn/attrs-async', 'fn/deps-decl'],
     'C15': ['fn/deps-decl', 'fn/patterns', 'fn/attrs-async', 'fn/qualifiers', 'fn/symbolic-names'],
-    'C16': ['fn/patterns', 'fn/patterns-2params', 'fn/symbolic-names'],
+    'C17': ['fn/opts/'],
+    'C16': ['fn/patterns', 'fn/patterns-2params', 'fn/symbolic-names', 'fn/symbolic-names-3'],
     'C18': ['fn/attrs-async', 'fn/patterns'],
     'C19': ['fn/opts/entrait', 'fn/attrs-async', 'fn/deps-decl'],
     'C20': ['fn/deps-decl-2generics', 'fn/patterns', 'fn/attrs-async', 'fn/opts/entrait', 'fn/opts/entrait_export'],
